@@ -35,7 +35,8 @@ ANCHORS = ["aiomysensors.gateway:Gateway.listen", "aiomysensors.transport:Stream
            "aiomysensors.model.protocol.protocol_20:IncomingMessageHandler.handle_i_heartbeat_response"]
 
 PAYLOADS = ["", "abc", "nan", "inf", "-inf", "1e400", "-3.5", "150", "55", "9" * 5000, "1.5", "2.x", "2.2-beta", "1_0",
-            " 7", "٣", "0x10", "\x00", "a;b", "😀", "2.2.0", "-1"]
+            " 7", "٣", "0x10", "\x00", "a;b", "😀", "2.2.0", "-1", "first line\rsecond line", "a\x0bb", "l1\u2028l2",
+            "a\x85b", "\rlead", "7\r7"]
 PROBE = "1;0;1;0;0;probe\n"
 
 
@@ -53,7 +54,7 @@ def single_step_cases(ctx):
                [f"1;255;4;0;{t};{{}}" for t in (-1, 0, 5, 6, 99)] + \
                ["1;255;0;0;17;{}", "0;255;0;0;18;{}", "1;0;0;0;6;{}", "1;0;1;0;0;{}", "1;0;2;0;0;{}", "1;3;1;0;0;{}",
                 "9;0;1;0;0;{}", "255;255;3;0;3;{}"]
-    payloads = PAYLOADS if not ctx.quick else PAYLOADS[:14]
+    payloads = PAYLOADS if not ctx.quick else PAYLOADS[:10] + PAYLOADS[-6:]
     for version, node_state, sleeping in itertools.product([None, *VERSIONS], ("absent", "present", "child"),
                                                             (False, True)):
         if node_state == "absent" and sleeping:
